@@ -1,4 +1,48 @@
+(* C06 Copies, pickles, pytrees and rebinding reproduce operators.
+   Statements only; every proof is `exact <lemma>` from Disc/RebindProofs.v.
+   params_of = the data view (leaves, in order), erase = everything else (metadata),
+   bind = bind_new_parameters, flatten/unflatten = the pytree codec (Disc/RebindModel.v). *)
 From Coq Require Import List ZArith QArith Bool.
 From PLV Require Import Disc.EqualModel Disc.RebindModel Disc.RebindProofs.
-Theorem placeholder6 : true = true. Proof. exact placeholder6_true. Qed.
-Print Assumptions placeholder6.
+Import ListNotations.
+
+(* flatten then unflatten is the identity on every (arbitrarily nested) operator AST ... *)
+Theorem unflatten_flatten : forall a : op, unflatten (flatten a) = Some a.
+Proof. exact unflatten_flatten_op. Qed.
+Print Assumptions unflatten_flatten.
+
+(* ... and on measurement processes (leaves of the observable, then the eigenvalue array) *)
+Theorem unflatten_flatten_item : forall a : item, round_trip_model a = Some a.
+Proof. exact round_trip_item. Qed.
+Print Assumptions unflatten_flatten_item.
+
+(* rebinding an operator's own parameters reproduces it *)
+Theorem bind_same_id : forall a : op, bind a (params_of a) = Some a.
+Proof. exact bind_same. Qed.
+Print Assumptions bind_same_id.
+
+(* rebinding yields an operator whose parameters are exactly the new ones, in order, and whose
+   other attributes (class, wires, hyperparameters, control wires/values, exponents, operand
+   structure) are unchanged *)
+Theorem bind_changes_only_params : forall (a : op) ps a', bind a ps = Some a' ->
+  params_of a' = ps /\ erase a' = erase a.
+Proof. exact bind_sound. Qed.
+Print Assumptions bind_changes_only_params.
+
+(* rebinding is defined exactly when the new leaves have the number and shapes of the old ones *)
+Theorem bind_length_guard : forall (a : op) ps,
+  bind a ps <> None <-> map (@length Q) ps = map (@length Q) (params_of a).
+Proof. exact bind_guard. Qed.
+Print Assumptions bind_length_guard.
+
+(* ---- non-vacuity: Sum(MultiControlledX-like Ctrl without parameters, Exp(1.58 i) Z, CZ) -- the
+   shape of the repaired misalignment defect -- rebinding 1/2 reaches the Exp coefficient *)
+Open Scope Q_scope.
+Example bind_reaches_the_exp :
+  let mcx := Ctrl 4 (Plain 2 [] [2%Z] 1) [10%Z; 11%Z; 1%Z] [false; false; true] [] 1 in
+  let e c := ExpO 5 c 1 (Plain 3 [] [0%Z] 1) in
+  let cz := Ctrl 6 (Plain 3 [] [10%Z] 1) [1%Z] [true] [] 1 in
+  let s c := Comp 7 0 None [(0%Z, [], mcx); (1%Z, [], e c); (2%Z, [], cz)] in
+  params_of (s (79#50)) = [[79#50]] /\ bind (s (79#50)) [[1#2]] = Some (s (1#2)) /\
+  bind (s (79#50)) [] = None /\ bind (s (79#50)) [[1#2]; [1#3]] = None.
+Proof. vm_compute. repeat split; reflexivity. Qed.
